@@ -13,6 +13,7 @@
 import Desync.Proofs.ArchiveProofs
 import Desync.Proofs.FormatWalkProofs
 import Desync.Properties.C04
+import Desync.Proofs.ProtoSessionProofs
 
 namespace Desync.C19
 open Desync
@@ -61,6 +62,102 @@ theorem truncated_payload_is_error (n : Nat) (s : St) (h : s.rest.length < n) :
   unfold takePayload
   have : ¬ n ≤ s.rest.length := by omega
   simp [this]
+
+/-! ### the casync protocol server and client on arbitrary input (`Model/ProtoSession.lean`)
+
+  `PS.serverRun E cancel wr input` is `ProtocolServer.Serve` reading `input`: handshake, loop, the
+  `switch m.Type`, the `Send*` functions with every slice expression as an explicit check.  `cancel`
+  says at which pass the context is found done, `wr` how many messages the writer takes. -/
+
+/-- **no input makes the protocol server panic** — none of the slice expressions of `Serve`,
+    `RecvHello` and the `Send*` functions can fail — and none of the model's own artefacts is ever
+    the verdict (its loop ends by itself, `ChunkIDFromSlice(m.Body[8:40])` cannot fail, no `Send*`
+    finds the protocol uninitialised) -/
+theorem server_never_panics (E : PS.Env) (cancel wr : Option Nat) (input : Bytes) :
+    (∀ p, (PS.serverRun E cancel wr input).end_ ≠ .panic p) ∧
+    (PS.serverRun E cancel wr input).end_ ≠ .fuel ∧ (PS.serverRun E cancel wr input).end_ ≠ .badId ∧
+    (PS.serverRun E cancel wr input).end_ ≠ .notInit := by
+  have h := PS.serverRun_real E cancel wr input
+  refine ⟨fun p hp => ?_, fun hp => ?_, fun hp => ?_, fun hp => ?_⟩ <;> rw [hp] at h <;> cases h
+
+/-- the `Send*` functions, computed: the buffer arithmetic of `SendProtocolRequest` /
+    `SendProtocolChunk` (`make`, `b[0:8]`, `copy(b[8:], id[:])`, `copy(b[40:], chunk)`) never fails
+    and yields flags ++ id ++ data -/
+theorem send_functions_never_panic (id : Bytes) (flags : UInt64) (data : Bytes) :
+    PS.mkRequest true id flags = .ok (requestMessage (PS.fit32 id) flags) ∧
+    PS.mkChunk true id flags data = .ok (chunkMessage (PS.fit32 id) flags data) ∧
+    PS.mkMissing true id = .ok (missingMessage (PS.fit32 id)) :=
+  ⟨PS.mkRequest_eq id flags, PS.mkChunk_eq id flags data, PS.mkMissing_eq id⟩
+
+/-- **allocation**: for every input, what the server has allocated for input-sized buffers is at
+    most what it has consumed of the input — a length field is never trusted — and what is left
+    unread is a suffix of the input -/
+theorem server_alloc_bounded (E : PS.Env) (cancel wr : Option Nat) (input : Bytes) :
+    (PS.serverRun E cancel wr input).st.alloc ≤ input.length - (PS.serverRun E cancel wr input).st.rest.length ∧
+    (PS.serverRun E cancel wr input).st.rest.length ≤ input.length ∧
+    ∃ consumed, input = consumed ++ (PS.serverRun E cancel wr input).st.rest := by
+  obtain ⟨h1, _, pre, h3⟩ := PS.serverRun_le E cancel wr input
+  simp only at h1 h3
+  have hl := congrArg List.length h3
+  simp only [List.length_append] at hl
+  exact ⟨by omega, by omega, pre, h3⟩
+
+/-- **malformed input is an error, not success**: `Serve` returns nil after a goodbye on exactly
+    these inputs — a hello message whose flags ask for chunks, then requests (at least 40 body
+    bytes) that the store answered with a chunk or with "missing", then a message of type goodbye,
+    then anything; the context not found done at the top of any of those passes.  (Writer that
+    takes every message.) -/
+theorem server_returns_nil_iff (E : PS.Env) (cancel : Option Nat) (input : Bytes) :
+    (PS.serverRun E cancel none input).end_ = .nilGoodbye ↔
+      ∃ f reqs gb rest, input = PS.wire (PS.helloMsg f :: reqs ++ [gb]) ++ rest ∧
+        f &&& Gen.CaProtocolPullChunks ≠ 0 ∧ gb.typ = Gen.CaProtocolGoodbye ∧
+        (∀ m ∈ reqs ++ [gb], 16 + m.body.length < 2^64) ∧ (∀ r ∈ reqs, PS.Answered E r) ∧
+        (∀ n, cancel = some n → reqs.length < n) := by
+  constructor
+  · intro h
+    obtain ⟨f, reqs, gb, hin, hp, hgb, hall, _, hc, _, hsz⟩ := PS.serverRun_nilGoodbye E cancel none input h
+    exact ⟨f, reqs, gb, _, hin, hp, hgb, hsz, hall, hc⟩
+  · rintro ⟨f, reqs, gb, rest, rfl, hp, hgb, hsz, hall, hc⟩
+    exact (PS.serverRun_nilGoodbye_of E cancel none f reqs gb rest hp hgb hsz hall hc (fun n hn => by cases hn)).1
+
+/-- … and nil for a done context only after a hello asking for chunks and as many answered
+    requests as it takes for the context to be found done -/
+theorem server_returns_nil_cancelled (E : PS.Env) (cancel wr : Option Nat) (input : Bytes)
+    (h : (PS.serverRun E cancel wr input).end_ = .nilCancelled) :
+    ∃ f reqs, input = PS.wire (PS.helloMsg f :: reqs) ++ (PS.serverRun E cancel wr input).st.rest ∧
+      f &&& Gen.CaProtocolPullChunks ≠ 0 ∧ cancel = some reqs.length ∧ (∀ r ∈ reqs, PS.Answered E r) := by
+  obtain ⟨f, reqs, h1, h2, h3, h4, _⟩ := PS.serverRun_nilCancelled E cancel wr input h
+  exact ⟨f, reqs, h1, h2, h3, h4⟩
+
+/-- what "answered" means: a request message with at least 40 body bytes for whose id
+    (`m.Body[8:40]`) the store yields a chunk whose data can be produced, or "missing" -/
+theorem answered_iff (E : PS.Env) (m : Message) :
+    PS.Answered E m ↔ m.typ = Gen.CaProtocolRequest ∧ 40 ≤ m.body.length ∧
+      ∃ r, PS.replyOf E ((m.body.take 40).drop 8) = .ok r :=
+  ⟨fun ⟨r, h1, h2, h3⟩ => ⟨h1, h2, r, h3⟩, fun ⟨h1, h2, r, h3⟩ => ⟨r, h1, h2, h3⟩⟩
+
+/-- the client on arbitrary bytes from the server side: no panic (handshake and every request),
+    allocation bounded by what it consumed -/
+theorem client_never_panics (H : Bytes → Bytes) (dec : Bytes → Option Bytes) (ids : List Bytes) (fromServer : Bytes) :
+    (∀ p, (PS.clientRun H dec ids fromServer).hs ≠ some (.panic p)) ∧
+    (∀ (k : Nat) (p : String), (PS.clientRun H dec ids fromServer).results[k]? ≠ some (PS.CRes.fail (.panic p))) ∧
+    (PS.clientRun H dec ids fromServer).conn.st.alloc ≤ fromServer.length - (PS.clientRun H dec ids fromServer).conn.st.rest.length := by
+  obtain ⟨h1, h2, h3, _, pre, h5⟩ := PS.clientRun_real H dec ids fromServer
+  simp only at h3 h5
+  have hl := congrArg List.length h5
+  simp only [List.length_append] at hl
+  refine ⟨fun p hp => ?_, h2, by omega⟩
+  have := h1 _ hp
+  cases this
+
+/-! non-vacuity: a request with 39 body bytes is refused ("protocol request too small"), not a panic;
+    hello + goodbye is the shortest input on which `Serve` returns nil -/
+example (E : PS.Env) (wr : Option Nat) : PS.arm E true wr ⟨Gen.CaProtocolRequest, List.replicate 39 0⟩ = .stop .reqSmall := by
+  simp [PS.arm, PS.serveRequest]
+example (E : PS.Env) :
+    (PS.serverRun E none none (PS.wire [PS.helloMsg Gen.CaProtocolPullChunks, PS.goodbyeMsg])).end_ = .nilGoodbye :=
+  (server_returns_nil_iff E none _).mpr ⟨Gen.CaProtocolPullChunks, [], PS.goodbyeMsg, [], by simp, by decide, rfl,
+    by simp [PS.goodbyeMsg], by simp, by simp⟩
 
 /-! ### callers that do not read payloads to their end (`FormatDecoder.advance`) -/
 
